@@ -411,6 +411,18 @@ static htp_status_t htp_tx_process_request_headers(htp_tx_t *tx) {
             tx->request_transfer_coding = HTP_CODING_INVALID;
             tx->flags |= HTP_REQUEST_INVALID_T_E;
             tx->flags |= HTP_REQUEST_INVALID;
+
+            // The request is invalid either way, but more than one Content-Length
+            // (or a folded one) is a smuggling attempt whatever the T-E header says.
+            if (cl != NULL) {
+                if (cl->flags & HTP_FIELD_FOLDED) {
+                    tx->flags |= HTP_REQUEST_SMUGGLING;
+                }
+
+                if (cl->flags & HTP_FIELD_REPEATED) {
+                    tx->flags |= HTP_REQUEST_SMUGGLING;
+                }
+            }
         } else {
             // Chunked encoding is a HTTP/1.1 feature, so check that an earlier protocol
             // version is not used. The flag will also be set if the protocol could not be parsed.
